@@ -238,3 +238,132 @@ Proof.
   exact (alu_std_word_final ir f dst rd m (R m rs) (R m rt) (read_reg_word ir 0 rs m S) (read_reg_word ir 1 rt m T)
            Dm Dr Hd Dt).
 Qed.
+
+(* ---- halfword and byte forms (register destination): N and Z describe the result at the operand size ---- *)
+Definition sign_bit (t : dtype) : Z :=
+  match t with DWord | DUWord => 31 | DHalf | DUHalf => 15 | _ => 7 end.
+Definition trunc_to (t : dtype) (v : Z) : Z :=
+  match t with DWord | DUWord => v | DHalf | DUHalf => w16 v | _ => w8 v end.
+Definition too_big (t : dtype) (v : Z) : bool :=
+  match t with DWord | DUWord => false | DHalf | DUHalf => v >? 65535 | _ => v >? 255 end.
+
+Lemma bset_15 x : bset x 32768 = Z.testbit x 15.
+Proof. exact (bset_pow2 x 15 ltac:(lia)). Qed.
+Lemma bset_7 x : bset x 128 = Z.testbit x 7.
+Proof. exact (bset_pow2 x 7 ltac:(lia)). Qed.
+
+Lemma set_nz_flags_sized val o m : otype o <> DNone ->
+  set_nz_flags val o m = set_z (trunc_to (otype o) val =? 0) (set_n (Z.testbit val (sign_bit (otype o))) m).
+Proof.
+  intros N. unfold set_nz_flags, trunc_to, sign_bit.
+  destruct (otype o); try congruence; rewrite ?bset_31, ?bset_15, ?bset_7; reflexivity.
+Qed.
+Lemma set_v_flag_op_sized val o m : otype o <> DNone ->
+  set_v_flag_op val o m = set_v (too_big (otype o) val) m.
+Proof. intros N. unfold set_v_flag_op, too_big. destruct (otype o); try congruence; reflexivity. Qed.
+
+(* AND / OR / XOR / MUL / ALS at every size: result f a b in the register, N = sign bit at the operand size,
+   Z = (result truncated to the operand size = 0), C = 0, V = result does not fit the operand size *)
+Lemma alu_std_sized_final ir f dst r m a b :
+  read_op ir 0 m = Ok a m -> read_op ir 1 m = Ok b m ->
+  omode (get_op ir dst) = MRegister -> oreg (get_op ir dst) = Some r -> 0 <= r <= 10 ->
+  otype (get_op ir dst) <> DNone ->
+  let t := otype (get_op ir dst) in
+  exists m', alu_std ir f dst m = Ok (ilen ir) m'
+    /\ word_outcome m m' r (f a b) (Z.testbit (f a b) (sign_bit t)) (trunc_to t (f a b) =? 0) (too_big t (f a b)) false.
+Proof.
+  intros R0 R1 Hm Hr Hr10 Ht t. unfold alu_std. rewrite R0. cbn [bind]. rewrite R1. cbn [bind].
+  rewrite (write_reg ir dst r _ m Hm Hr). cbn [bind]. eexists. split; [reflexivity|].
+  rewrite set_nz_flags_sized, set_v_flag_op_sized by exact Ht. fold t.
+  set (res := f a b).
+  destruct (nzvc_after (Z.testbit res (sign_bit t)) (trunc_to t res =? 0) (too_big t res) false (setR m r res)) as [A [B [C D]]].
+  constructor; auto.
+  - rewrite R_flags_other by lia. apply R_setR_same.
+  - intros i Hi N1 N2. rewrite R_flags_other by lia. apply R_setR_other; lia.
+Qed.
+
+(* SUB / DEC at every size: C = unsigned borrow of the operands as read *)
+Lemma sub_op_sized_final ir a b dst r m :
+  omode (get_op ir dst) = MRegister -> oreg (get_op ir dst) = Some r -> 0 <= r <= 10 ->
+  otype (get_op ir dst) <> DNone ->
+  let t := otype (get_op ir dst) in
+  let res := w32 (a - b) in
+  exists m', sub_op ir a b dst m = Ok tt m'
+    /\ word_outcome m m' r res (Z.testbit res (sign_bit t)) (trunc_to t res =? 0) (too_big t res) (a <? b).
+Proof.
+  intros Hm Hr Hr10 Ht t res. unfold sub_op. cbv zeta.
+  rewrite (write_reg ir dst r _ m Hm Hr). cbn [bind]. eexists. split; [reflexivity|].
+  rewrite set_nz_flags_sized, set_v_flag_op_sized by exact Ht. fold t. fold res.
+  replace (b >? a) with (a <? b) by lia.
+  destruct (nzvc_after (Z.testbit res (sign_bit t)) (trunc_to t res =? 0) (too_big t res) (a <? b) (setR m r res)) as [A [B [C D]]].
+  constructor; auto.
+  - rewrite R_flags_other by lia. apply R_setR_same.
+  - intros i Hi N1 N2. rewrite R_flags_other by lia. apply R_setR_other; lia.
+Qed.
+
+(* ADD / INC at halfword and byte size: C = carry out of the operand size *)
+Lemma add_op_sized_final ir a b dst r m :
+  omode (get_op ir dst) = MRegister -> oreg (get_op ir dst) = Some r -> 0 <= r <= 10 ->
+  oetype (get_op ir dst) = None ->
+  let t := otype (get_op ir dst) in
+  (t = DHalf \/ t = DByte) ->
+  let res := w32 (a + b) in
+  let top := if dtype_eqb t DHalf then 15 else 7 in
+  exists m', add_op ir a b dst m = Ok tt m'
+    /\ word_outcome m m' r res (Z.testbit res top) (trunc_to t res =? 0)
+         (Z.testbit (Z.land (Z.lxor a (not32 b)) (Z.lxor a res)) top)
+         (a + b >? (if dtype_eqb t DHalf then 65535 else 255)).
+Proof.
+  intros Hm Hr Hr10 He t Ht res top. unfold add_op. cbv zeta.
+  rewrite (write_reg ir dst r _ m Hm Hr). cbn [bind].
+  unfold data_type. rewrite He. fold t. fold res.
+  assert (Nn : otype (get_op ir dst) <> DNone) by (fold t; destruct Ht as [-> | ->]; discriminate).
+  rewrite set_nz_flags_sized by exact Nn. fold t.
+  subst top. destruct Ht as [E|E]; rewrite E in *; cbn [dtype_eqb sign_bit trunc_to];
+    rewrite ?bset_15, ?bset_7; (eexists; split; [reflexivity|]).
+  - destruct (nzvc_after (Z.testbit res 15) (w16 res =? 0)
+                (Z.testbit (Z.land (Z.lxor a (not32 b)) (Z.lxor a res)) 15) (a + b >? 65535) (setR m r res)) as [A [B [C D]]].
+    constructor; auto.
+    + rewrite R_flags_other by lia. apply R_setR_same.
+    + intros i Hi N1 N2. rewrite R_flags_other by lia. apply R_setR_other; lia.
+  - destruct (nzvc_after (Z.testbit res 7) (w8 res =? 0)
+                (Z.testbit (Z.land (Z.lxor a (not32 b)) (Z.lxor a res)) 7) (a + b >? 255) (setR m r res)) as [A [B [C D]]].
+    constructor; auto.
+    + rewrite R_flags_other by lia. apply R_setR_same.
+    + intros i Hi N1 N2. rewrite R_flags_other by lia. apply R_setR_other; lia.
+Qed.
+
+(* all sizes of AND / OR / XOR / MUL, two- and three-operand *)
+Definition std_arm (opc : Z) : option ((Z -> Z -> Z) * Z) :=
+  let one l := existsb (Z.eqb opc) l in
+  if one [184; 186; 187] then Some (Z.land, 1) else if one [248; 250; 251] then Some (Z.land, 2)
+  else if one [176; 178; 179] then Some (Z.lor, 1) else if one [240; 242; 243] then Some (Z.lor, 2)
+  else if one [180; 182; 183] then Some (Z.lxor, 1) else if one [244; 246; 247] then Some (Z.lxor, 2)
+  else if one [168; 170; 171] then Some ((fun a b => w32 (a * b)), 1)
+  else if one [232; 234; 235] then Some ((fun a b => w32 (a * b)), 2)
+  else None.
+
+Lemma one_of_three opc x y z : existsb (Z.eqb opc) [x; y; z] = true -> opc = x \/ opc = y \/ opc = z.
+Proof. cbn [existsb]. rewrite !orb_true_iff, !Z.eqb_eq. intros [H|[H|[H|H]]]; auto. discriminate. Qed.
+
+Lemma std_arm_exec ir m f dst : std_arm (iopcode ir) = Some (f, dst) -> exec ir m = alu_std ir f dst m.
+Proof.
+  unfold std_arm. cbv zeta. intros H.
+  repeat match type of H with
+  | (if ?c then _ else _) = _ => let E := fresh "E" in destruct c eqn:E; [apply one_of_three in E|clear E]
+  end; try discriminate; injection H as <- <-.
+  - now apply exec_and2. - now apply exec_and3. - now apply exec_or2. - now apply exec_or3.
+  - now apply exec_xor2. - now apply exec_xor3. - now apply exec_mul2. - now apply exec_mul3.
+Qed.
+
+Theorem logic_mul_sized_final ir m f dst r a b :
+  std_arm (iopcode ir) = Some (f, dst) -> read_op ir 0 m = Ok a m -> read_op ir 1 m = Ok b m ->
+  omode (get_op ir dst) = MRegister -> oreg (get_op ir dst) = Some r -> 0 <= r <= 10 ->
+  otype (get_op ir dst) <> DNone ->
+  let t := otype (get_op ir dst) in
+  exists m', exec ir m = Ok (ilen ir) m'
+    /\ word_outcome m m' r (f a b) (Z.testbit (f a b) (sign_bit t)) (trunc_to t (f a b) =? 0) (too_big t (f a b)) false.
+Proof.
+  intros Ha R0 R1 Hm Hr Hr10 Ht t. rewrite (std_arm_exec ir m f dst Ha).
+  exact (alu_std_sized_final ir f dst r m a b R0 R1 Hm Hr Hr10 Ht).
+Qed.
